@@ -14,12 +14,12 @@ type DevAnswer struct {
 type DevPort struct {
 	Regs        map[uint16]DevAnswer
 	Id          uint16
-	NoPing      bool // silent at ping
-	NoId        bool // silent at the device-id query
-	BadPing     []byte // if set, answer ping with these bytes
-	BadId       []byte // if set, answer the id query with these bytes
-	SilentAfter int    // if >= 0: stop answering Get commands after this many answered Gets
-	DieMidFrame bool   // with SilentAfter: the first unanswered Get still gets the first bytes of its answer
+	NoPing      bool              // silent at ping
+	NoId        bool              // silent at the device-id query
+	BadPing     []byte            // if set, answer ping with these bytes
+	BadId       []byte            // if set, answer the id query with these bytes
+	SilentAfter int               // if >= 0: stop answering Get commands after this many answered Gets
+	DieMidFrame bool              // with SilentAfter: the first unanswered Get still gets the first bytes of its answer
 	OnGet       func(addr uint16) // hook called for every Get frame received (e.g. to cancel a context)
 	queue       []byte
 	Frames      [][]byte // every frame written by the driver
